@@ -143,6 +143,11 @@ def check_visible_order(ctx, F):
 def check(ctx, F):
     _FN["F"] = F
     check_visible_order(ctx, F)
+    # "activeSubState(r) is the index of r's active sub-state": a region is entered with a requested prong only if every resolver hands its
+    # own choice down (routing.check_descend, shared with C01 / C02) and the commit runs on an approved round's requests (C04.round)
+    from . import routing, C04, C03
+    routing.check_descend(ctx, F, "C13.resume-path")
+    C04.check_round(C03._Alias(ctx, {"C04.round": "C13.visible-order"}), F)
     per = {}
     for fid, b in insts(F, "RegistryT", set(QUERIES)):
         if b["name"] == "isActive" and not b.get("params"):
